@@ -233,7 +233,11 @@ def check_op(prog, rep, m, name):
             item = inner[0].target.id if isinstance(inner[0].target, ast.Name) else None
             tests = [s for s in inner[0].body if isinstance(s, ast.If)]
             line = inner[0].lineno
-            if len(tests) == 1 and len(inner[0].body) == 1:
+            if len(tests) == 1 and len(inner[0].body) == 1 and not (isinstance(tests[0].test, ast.Compare) and len(tests[0].test.ops) == 1):
+                shown = norm(tests[0].test)
+                why = 'the layers must be counted by the exact comparison `%s %s item`, not by `%s` (a tolerance or helper makes the three ' \
+                      'operators overlap or leave gaps)' % (refname, FREQ[name], shown)
+            elif len(tests) == 1 and len(inner[0].body) == 1:
                 shown = norm(tests[0].test)
                 op = cmp_oriented(tests[0].test, refname)
                 other = tests[0].test.left if norm(tests[0].test.comparators[0]) == refname else tests[0].test.comparators[0]
